@@ -137,3 +137,21 @@ package analysis
 //@        0 <= i && i < rangeindex#1 && typeIs(nodesAlpha(nodeMap)[i], "*model.Target") && 0 <= j && j < len(asPtr(nodesAlpha(nodeMap)[i], "*model.Target").Dependencies) ==>
 //@        depRuleOK(asPtr(nodesAlpha(nodeMap)[i], "*model.Target"), resolvedTarget(nodeMap, asPtr(nodesAlpha(nodeMap)[i], "*model.Target").Dependencies[j]))))
 //@   invariant [deps_so_far] len(errs) == 0 ==> (forall j int :: {target.Dependencies[j]} 0 <= j && j <= rangeindex ==> depRuleOK(target, resolvedTarget(nodeMap, target.Dependencies[j])))
+
+// C11: "an output escaping the workspace": the output path, joined with the workspace root and the package and made
+// absolute, must not leave the workspace root (lexically: its path relative to the root does not start with "..").
+//@ func isWithinWorkspace(absWorkspace, packagePath, relPath) (r, err)
+//@   pure
+//@   ensures [iff_relative_path_stays_inside] err == nil ==> (r <==> !(cleanPath(relPathOf(absWorkspace, absPathOf(pathJoin3(absWorkspace, packagePath, relPath)))) == ".." ||
+//@        hasPrefix(cleanPath(relPathOf(absWorkspace, absPathOf(pathJoin3(absWorkspace, packagePath, relPath)))), "../")))
+
+//@ func checkOutputsAreWithinRepository(target) (errs)
+//@   pure
+//@   ensures [escaping_output_rejected] len(errs) == 0 ==> (forall j int :: {fileOutputsOf(target)[j]} 0 <= j && j < len(fileOutputsOf(target)) ==> !hasPrefix(fileOutputsOf(target)[j], "/") &&
+//@        !(cleanPath(relPathOf(config.Global.WorkspaceRoot, absPathOf(pathJoin3(config.Global.WorkspaceRoot, target.Label.Package, fileOutputsOf(target)[j])))) == ".." ||
+//@          hasPrefix(cleanPath(relPathOf(config.Global.WorkspaceRoot, absPathOf(pathJoin3(config.Global.WorkspaceRoot, target.Label.Package, fileOutputsOf(target)[j])))), "../")))
+//@ loop #1
+//@   invariant [same_list] ranged() == fileOutputsOf(target)
+//@   invariant [so_far] len(errs) >= 0 && (len(errs) == 0 ==> (forall j int :: {fileOutputsOf(target)[j]} 0 <= j && j <= rangeindex ==> !hasPrefix(fileOutputsOf(target)[j], "/") &&
+//@        !(cleanPath(relPathOf(config.Global.WorkspaceRoot, absPathOf(pathJoin3(config.Global.WorkspaceRoot, target.Label.Package, fileOutputsOf(target)[j])))) == ".." ||
+//@          hasPrefix(cleanPath(relPathOf(config.Global.WorkspaceRoot, absPathOf(pathJoin3(config.Global.WorkspaceRoot, target.Label.Package, fileOutputsOf(target)[j])))), "../"))))
